@@ -121,6 +121,18 @@ class UserCriteria(Strict):
         return cls(data["kwargs"]["oid"], [], [])
 
 
+class UserCriteriaFalsy(UserCriteria):
+    """a criteria that happens to be FALSY as an object (e.g. it exposes the length of its - still empty - verdict window): an explicit criteria all the same"""
+
+    def __len__(self):
+        return 0
+
+
+class UserCriteriaBoolFalse(UserCriteria):
+    def __bool__(self):
+        return False
+
+
 try:
     register_class(UserMove, "UserMove")
     register_class(UserCriteria, "UserCriteria")
@@ -155,12 +167,12 @@ def handler(c):
         if ent["kind"] == "user":
             if ent["oid"] not in objs:
                 objs[ent["oid"]] = UserMove(ent["oid"], ent["script"], "any")
-            crit = UserCriteria(100 + len(table), verdicts, snaps)
+            crit = {"len0": UserCriteriaFalsy, "boolfalse": UserCriteriaBoolFalse}.get(ent.get("criteria_kind"), UserCriteria)(100 + len(table), verdicts, snaps)
             mc.add_move(objs[ent["oid"]], criteria=crit, name=ent["name"], probability=ent.get("probability", 1.0))
             table.append([ent["name"], ent["oid"], 100 + len(table) - 0])
         else:
             shipped = {"disp": lambda: DisplacementMove(np.arange(n)), "exch": lambda: ExchangeMove(np.arange(n)), "cell": CellMove}[ent["shipped"]]()
-            crit = UserCriteria(100 + len(table), verdicts, snaps)
+            crit = {"len0": UserCriteriaFalsy, "boolfalse": UserCriteriaBoolFalse}.get(ent.get("criteria_kind"), UserCriteria)(100 + len(table), verdicts, snaps)
             mc.add_move(shipped, criteria=crit, name=ent["name"], probability=ent.get("probability", 1.0))
             table.append([ent["name"], None, 100 + len(table)])
     trials = []
